@@ -129,6 +129,7 @@ type Goal struct {
 	term   Term
 	where  string
 	expect string // "" normal (want unsat of negation); "cover" want sat
+	cheap  bool   // cover goal checked with a small budget (contradictions of this kind are found at once)
 	info   string
 	status string
 	solver string
